@@ -3,7 +3,7 @@
    extracted file into the current directory. *)
 From Coq Require Import Extraction ExtrOcamlBasic.
 From LV Require Import Base.Bytes Base.Utf8 Base.Base64 Model.Codec Model.Response Model.ServerInfo
-  Model.Auth Model.Client Model.Address Model.HeaderEnc Model.Body Model.Mailbox Model.Headers Model.Builder Model.Pool Model.Mime Spec.MimeReader Spec.Envelope Spec.SmtpData Spec.Xtext Spec.Rfc5322 Spec.Rfc2047 Spec.Rfc2231 Spec.Cte.
+  Model.Auth Model.Client Model.Address Model.HeaderEnc Model.Body Model.Mailbox Model.Headers Model.Builder Model.Pool Model.Mime Model.Transports Spec.MimeReader Spec.Sinks Spec.Envelope Spec.SmtpData Spec.Xtext Spec.Rfc5322 Spec.Rfc2047 Spec.Rfc2231 Spec.Cte.
 Extraction Language OCaml.
 Extraction "model.ml"
   Codec.encode Codec.wire SmtpData.server_data SmtpData.recv
@@ -24,4 +24,5 @@ Extraction "model.ml"
   Headers.run_hops Headers.show_headers
   Builder.build_ops Envelope.spec_build
   Pool.step Pool.p_init
-  Mime.format_desc MimeReader.parse_entity MimeReader.ct_boundary.
+  Mime.format_desc MimeReader.parse_entity MimeReader.ct_boundary
+  Transports.sendmail_args Transports.json_envelope Transports.stub_keeps_octets Sinks.read_envelope Sinks.sendmail_reads.
